@@ -2117,7 +2117,7 @@ parse_citation:
 			} else {
 				print_const(">\n<text:p");
 
-				if (scratch->table_cell_count < kMaxTableColumns) {
+				if (scratch->table_cell_count >= 0 && scratch->table_cell_count < kMaxTableColumns) {
 					switch (scratch->table_alignment[scratch->table_cell_count]) {
 						case 'l':
 						case 'L':
